@@ -121,8 +121,11 @@ func (t *Table) SavePath(p *pb.Path) {
 		CreateTime: time.Now(),
 		UsedTime:   time.Now(),
 	}
+	// the in-memory entry and the stored record change together (see Delete)
+	t.mu.Lock()
 	t.paths.Store(pathKey, &path)
 	_ = t.store.Put(pathPrefix+pathKey.String(), path)
+	t.mu.Unlock()
 
 	// parse route from path
 	route := TargetRoute{Neighbor: items[len(items)-1], PathKey: pathKey}
@@ -241,9 +244,13 @@ func (t *Table) Gc(expire time.Duration) {
 
 func (t *Table) Delete(path *Path) {
 	pathKey, _ := generatePathItems(convItemsToBytes(path.Items))
-	// delete path
+	// delete path; under the lock, so that a SavePath of the same path cannot
+	// write its record after this delete removed the in-memory entry's record
+	// (the path would be gone from memory but come back after a restart)
+	t.mu.Lock()
 	t.paths.Delete(pathKey)
 	_ = t.store.Delete(pathPrefix + pathKey.String())
+	t.mu.Unlock()
 	// delete routes
 	t.IterateTarget(path.Items, func(target boson.Address) {
 		targetKey := getTargetKey(target)
